@@ -13,7 +13,7 @@ Definition ctpk_match (f : bytes) (tsec : N) (i : ctpk_info) (t : tex) : Prop :=
   ci_fmt i = t_fmt t /\ ci_w i = t_w t /\ ci_h i = t_h t /\
   cstr_atN f (ci_name_ptr i) = Some (t_name t) /\
   sliceN (tsec + ci_data_ptr i) (lenN (t_data t)) f = Some (t_data t) /\
-  tex3ds_wf sjis_valid t.
+  tex3ds_wf sjis_name t.
 
 Ltac known :=
   first [ erewrite rd32_some by eassumption | erewrite rd16_some by eassumption | erewrite rd8_some by eassumption ];
@@ -64,6 +64,7 @@ Hypothesis Hsmall : lenN f < 2 ^ 32.
 Lemma ctpk_texture_ok m i t : ctpk_match f tsec i t -> ctpk_texture m f tsec i = decode_tex m t.
 Proof.
   intros (Hf & Hw & Hh & Hn & Hd & (Hv & Hsz & _)). unfold ctpk_texture, decode_tex.
+  apply andb_prop in Hv. destruct Hv as [_ Hv].
   rewrite (read_name_cstr _ _ _ _ Hn Hv). cbn [bind].
   pose proof (sliceN_bound _ _ _ _ Hd) as B.
   rewrite add32_ok by lia. cbn [bind].
